@@ -403,6 +403,26 @@ Fixpoint check_C19_calls (x : gctx) (calls : list call) (run : list (list id * b
   | _ :: rest => block_ok run blk && check_C19_calls x rest [] []
   end.
 
+(* What C19 itself asks of the deletes ("only after the cloud accepted termination of the entire batch"): every Node delete
+   names a node backed by an instance of the all-accepted terminate run directly before its block.  That the block follows the
+   batch in order and stops at the first failed delete is how the code does it today (check_C19_calls, proved of the model);
+   it is not demanded of the implementation. *)
+Definition block_ok_w (run : list (list id * bool)) (blk : list (id * bool)) : bool :=
+  forallb (fun p => existsb (fun b => mem_id (fst p) b) (ok_suffix run)) blk.
+
+Fixpoint check_C19_calls_w (x : gctx) (calls : list call) (run : list (list id * bool)) (blk : list (id * bool)) : bool :=
+  match calls with
+  | [] => block_ok_w run blk
+  | CA (ATermInAsg inst decr ok) :: rest =>
+      decr && negb (match backed_names x inst with [] => true | _ => false end) &&
+      match blk with
+      | [] => check_C19_calls_w x rest (run ++ [(backed_names x inst, ok)]) []
+      | _ => block_ok_w run blk && check_C19_calls_w x rest [(backed_names x inst, ok)] []
+      end
+  | CK (KDelete n ok) :: rest => check_C19_calls_w x rest run (blk ++ [(n, ok)])
+  | _ :: rest => block_ok_w run blk && check_C19_calls_w x rest [] []
+  end.
+
 (* accepted terminations of the scan *)
 Definition ok_terminations (calls : list call) : Z :=
   count_occ_b (fun c => match c with CA (ATermInAsg _ _ true) => true | _ => false end) calls.
@@ -414,6 +434,7 @@ Definition check_C19_budget (x : gctx) (calls : list call) : bool :=
   || match x_asg x with Some a => ok_terminations calls <=? a_desired a - a_min a | None => false end.
 
 Definition check_C19_group (x : gctx) (calls : list call) : bool := check_C19_calls x calls [] [] && check_C19_budget x calls.
+Definition check_C19_group_w (x : gctx) (calls : list call) : bool := check_C19_calls_w x calls [] [] && check_C19_budget x calls.
 
 (* ---------- C07, the exact remainder ---------- *)
 (* the decision after the two triggers (starvation, max node age): each raises it to at least 1 *)
